@@ -311,12 +311,30 @@ def run(ctx: Check) -> int:
             ("stop", 3, ["hold"]), ("block", 4, ["cancel"]), ("watch", 4, ["force"]), ("cmds", 3, ["inject-cmd"])]
     two = [("cmds", 5, ["edit", "cmdb"]), ("block", 4, ["cancel", "inject-mark"]), ("pause", 5, ["pause", "edit"])]
     if thorough:
+        # all interleavings for every method x every request at warm-up 1/3/5, three methods also at 2/4/6
+        full += [(p, w, [r]) for p in PROGRAMS for w in (1, 3, 5) for r in REQUESTS]
         full += [(p, w, [r]) for p in ("cmds", "stop", "restart") for w in (2, 4, 6) for r in REQUESTS]
         two += [("watch", 4, ["force", "hold"]), ("stop", 3, ["stop", "edit"]), ("restart", 3, ["inject-cmd", "cancel"]),
-                ("cmds", 2, ["cmdb", "cmdb"]), ("block", 3, ["edit", "edit"])]
+                ("cmds", 2, ["cmdb", "cmdb"]), ("block", 3, ["edit", "edit"]), ("cmds", 4, ["inject-cmd", "edit"]),
+                ("pause", 4, ["hold", "pause"]), ("watch", 3, ["edit", "force"]), ("stop", 2, ["cmdb", "stop"]),
+                ("restart", 4, ["edit", "inject-mark"]), ("block", 5, ["cancel", "cancel"]),
+                ("cmds", 6, ["stop", "cmdb"]), ("pause", 6, ["edit", "inject-cmd"])]
     per_combo_limit = ctx.n(80, 6000)
+    # the all-interleavings part stops taking up new combos after this much wall time, so that a tree on which the
+    # entry points do not block (many more interleavings per combo) still finishes within the tier's budget
+    budget_s = 540.0 if thorough else float("inf")   # quick is bounded by the per-combo limit alone (deterministic)
+    import time as _time
     n_full = 0
-    for (prog, warm, reqs) in full + two:
+    skipped = 0
+    seen_combo: set[str] = set()
+    for (prog, warm, reqs) in two + full:
+        ck = json.dumps([prog, warm, reqs])
+        if ck in seen_combo:
+            continue
+        seen_combo.add(ck)
+        if _time.time() - ctx.t0 > budget_s:
+            skipped += 1
+            continue
         combo = combo_for(prog, warm, reqs)
         made = EC.explore_all(lambda ch, combo=combo: (lambda r: (r["made"], r["enabled"]))(add(combo, ch)),
                               limit=per_combo_limit)
@@ -328,12 +346,14 @@ def run(ctx: Check) -> int:
         combo = combo_for(prog, rng.randrange(0, 7), reqs)
         add(combo, "".join(rng.choice("TTR") for _ in range(rng.randrange(4, 22))))
     ctx.extra["schedules"] = {"request_as_a_whole_at_every_tick_yield_point": n_atomic,
-                              "all_interleavings_selected_combos": n_full, "distinct_cases": len(cases),
+                              "all_interleavings_selected_combos": n_full,
+                              "all_interleavings_combos_skipped_for_time": skipped, "distinct_cases": len(cases),
                               "combos": len(combos)}
     ctx.rule = ("case = (method, number of warm-up ticks, one or two requests, schedule); 6 methods (UOD commands, Stop, "
                 "timed Pause, Watch+Wait, Block, Restart) x warm-up 5 (thorough 0-6) x 9 requests (live edit, inject "
                 "mark / command, Pause, Hold, Stop, user UOD command, cancel, force) with the request as a whole placed "
-                "at each yield point of the tick; for selected combos with one and with two requests all interleavings "
+                "at each yield point of the tick; for selected combos with one and with two requests (thorough: every method x every "
+                "request at warm-up 1/3/5, three methods also at 2/4/6, 16 two-request combos) all interleavings "
                 "at the yield points of both threads (stateless search over the choices the real run has enabled); "
                 "random schedules. Non-trivial = the request thread ran while the ticking thread was between its first "
                 "and last segment.")
